@@ -503,16 +503,21 @@ class RaggedArray(IndexableArray, np.lib.mixins.NDArrayOperatorsMixin):
     def min(self, axis=None):
         return np.minimum.reduce(self, axis=1)
 
-    @reduction(allowed_axis=(1, -1))
-    def argmax(self, axis=None):
-        m = self.max(axis=-1, keepdims=True)
-        rows, cols = np.nonzero(self == m)
+    def _first_match(self, m):
+        hit = self == m
+        if np.issubdtype(self.dtype, np.floating):
+            hit = hit | ((self != self) & (m != m))
+        rows, cols = np.nonzero(hit)
         _, idxs = np.unique(rows, return_index=True)
         return cols[idxs]
 
+    @reduction(allowed_axis=(1, -1))
+    def argmax(self, axis=None):
+        return self._first_match(self.max(axis=-1, keepdims=True))
+
     @reduction(allowed_axis=(-1, 1))
     def argmin(self, axis=None):
-        return (-self).argmax(axis=-1)
+        return self._first_match(self.min(axis=-1, keepdims=True))
 
     def cumsum(self, axis: int = None, dtype: npt.DTypeLike = None) -> 'RaggedArray':
         """Return an array with cumulative sums along the given axis
